@@ -12,8 +12,18 @@
 //!       stplay short|long       a streaming sound over an in-memory `Decoder` (60 / 200 000 frames)
 //!       stseek                  StreamingSoundHandle::seek_to(0) (short) / seek_to(199 s) (long)
 //!       stcheck                 plays on and reports whether the seek took effect → seek=<0|1>
+//!       addt sub|nest           the sub-track `sub` (child of the mixer) / `nest` (child of `sub`)
+//!       play <slot> main|sub|nest   a real static sound (60 000 frames of (0, 0.125) at 1000 Hz — audible on the
+//!                               RIGHT channel only; the probe sound of `newt` is audible on the left only) in handle
+//!                               slot 0..3 on that track
+//!       sc <slot> pause|resume|stop|seekby <k>|seekto <k>|vol <k>|rate <k>
+//!                               a StaticSoundHandle method (instant tweens; seconds; −6·k dB; playback rate k)
+//!       cb … additionally       snd=<state>:<position bits>,… (per slot, `-` = no sound) amp=<right channel of the last frame>
 //! Oracles: a command is applied in the next callback, once; of a burst only the last; a command issued
-//! before the component's first callback is applied in that callback; a streaming seek takes effect.
+//! before the component's first callback is applied in that callback; a streaming seek takes effect;
+//! real static sounds (`sound_*_next_callback`): after the callback that follows an interval, EVERY command
+//! issued in that interval — of whatever kinds, on whatever track the sound plays, also before the sound's
+//! first callback — has taken effect (state(), position(), output level), none is applied late or twice.
 use crate::probe::{self, ProbeSoundData, Signal};
 use crate::runner::{run_cases, Out};
 use crate::util::*;
@@ -44,6 +54,10 @@ pub fn gen(rng: &mut Rng, n: usize, thorough: bool, stats: &mut Stats) -> Vec<St
 			out.push("stseek".into());
 			out.push("stcheck".into());
 			stats.hit(&format!("streaming_{}", kind));
+			continue;
+		}
+		if case % 3 != 0 {
+			gen_sound_case(rng, thorough, stats, &mut out);
 			continue;
 		}
 		let nops = 6 + rng.below(if thorough { 50 } else { 26 });
@@ -96,6 +110,139 @@ pub fn gen(rng: &mut Rng, n: usize, thorough: bool, stats: &mut Stats) -> Vec<St
 	out
 }
 
+/// A case about real static sounds on the main track, a sub-track and a sub-track of that sub-track:
+/// several commands of different kinds per inter-callback interval, commands before the first callback.
+fn gen_sound_case(rng: &mut Rng, thorough: bool, stats: &mut Stats, out: &mut Vec<String>) {
+	const KINDS: [&str; 7] = ["pause", "resume", "stop", "seekby", "seekto", "vol", "rate"];
+	let nops = 8 + rng.below(if thorough { 40 } else { 22 });
+	let mut tracks = [true, false, false]; // main sub nest
+	let mut used = [false; 4];
+	// an upper bound of the sound's position in seconds (the sounds are 60 s long and must not run out)
+	let mut ub = [0u64; 4];
+	let names = ["main", "sub", "nest"];
+	let (mut made_t, mut made_c) = (false, false);
+	let mut cmd = |rng: &mut Rng, slot: usize, kind: &str, ub: &mut [u64; 4], stats: &mut Stats, out: &mut Vec<String>| {
+		let line = match kind {
+			"seekby" => {
+				let k = rng.pick(&[1i64, 1, 2, -1]);
+				if ub[slot] + 2 > 45 {
+					return;
+				}
+				if k > 0 {
+					ub[slot] += k as u64;
+				}
+				format!("sc {} seekby {}", slot, k)
+			}
+			"seekto" => {
+				let k = rng.below(9);
+				ub[slot] = ub[slot].max(k);
+				format!("sc {} seekto {}", slot, k)
+			}
+			"vol" => format!("sc {} vol {}", slot, rng.below(6)),
+			"rate" => format!("sc {} rate {}", slot, 1 + rng.below(2)),
+			k => format!("sc {} {}", slot, k),
+		};
+		stats.hit(&format!("sc_{}", kind));
+		out.push(line);
+	};
+	let pick_kinds = |rng: &mut Rng, n: usize| -> Vec<&'static str> {
+		// distinct kinds; `stop` ends the sound, keep it rarer
+		let mut ks: Vec<&'static str> = vec![];
+		while ks.len() < n {
+			let k = if rng.chance(1, 12) { "stop" } else { KINDS[[0usize, 1, 3, 4, 5, 6][rng.below(6) as usize]] };
+			if !ks.contains(&k) {
+				ks.push(k);
+			}
+		}
+		ks
+	};
+	for _ in 0..nops {
+		match rng.below(20) {
+			0 => {
+				let w = if tracks[1] { 2 } else { 1 };
+				if !tracks[w] {
+					tracks[w] = true;
+					out.push(format!("addt {}", names[w]));
+					stats.hit("addt");
+				}
+			}
+			1..=4 => {
+				let Some(slot) = (0..4).find(|i| !used[*i]) else { continue };
+				let mut w = rng.below(3) as usize;
+				if !tracks[w] {
+					if rng.chance(1, 2) {
+						// the track and its first sound are created in the same interval
+						if w == 2 && !tracks[1] {
+							tracks[1] = true;
+							out.push("addt sub".into());
+						}
+						tracks[w] = true;
+						out.push(format!("addt {}", names[w]));
+					} else {
+						w = 0;
+					}
+				}
+				used[slot] = true;
+				out.push(format!("play {} {}", slot, names[w]));
+				stats.hit(&format!("play_{}", names[w]));
+				if rng.chance(2, 3) {
+					// commands issued before the sound's first callback
+					let n = 1 + rng.below(3) as usize;
+					for k in pick_kinds(rng, n) {
+						cmd(rng, slot, k, &mut ub, stats, out);
+					}
+					stats.hit("cmd_before_first_callback");
+				}
+			}
+			5..=13 => {
+				let live: Vec<usize> = (0..4).filter(|i| used[*i]).collect();
+				if live.is_empty() {
+					continue;
+				}
+				// several commands of different kinds on one sound in one interval …
+				let slot = rng.pick(&live);
+				let n = 1 + rng.below(4) as usize;
+				for k in pick_kinds(rng, n) {
+					cmd(rng, slot, k, &mut ub, stats, out);
+				}
+				if n >= 2 {
+					stats.hit("burst_of_kinds");
+				}
+				// … a repeated kind (last write wins) and a command on another sound
+				if rng.chance(1, 4) {
+					let k = pick_kinds(rng, 1)[0];
+					cmd(rng, slot, k, &mut ub, stats, out);
+				}
+				if rng.chance(1, 3) {
+					let other = rng.pick(&live);
+					let k = pick_kinds(rng, 1)[0];
+					cmd(rng, other, k, &mut ub, stats, out);
+				}
+			}
+			14 => {
+				// the classic components keep running next to the sounds
+				match rng.below(3) {
+					0 if !made_t => {
+						made_t = true;
+						out.push("newt".into())
+					}
+					2 if !made_c => {
+						made_c = true;
+						out.push("newc".into())
+					}
+					_ => out.push(format!("tvol {}", rng.below(6))),
+				}
+			}
+			_ => {
+				out.push(format!("cb {}", rng.pick(&[16u64, 24, 32, 40])));
+				stats.hit("cb");
+			}
+		}
+	}
+	out.push("cb 16".into());
+	out.push("cb 16".into());
+}
+
 /// An in-memory decoder: `Decoder` for a `Vec<Frame>`, handing out `chunk` frames per `decode`.
 pub struct VecDecoder {
 	pub frames: Vec<Frame>,
@@ -144,6 +291,49 @@ struct St {
 	seeks_applied_prev: u64,
 	tick_pending: Option<u64>,
 	tick_applied: u64,
+	// real static sounds
+	sub: Option<TrackHandle>,
+	nest: Option<TrackHandle>,
+	snds: Vec<Option<Snd>>,
+}
+
+/// a real static sound: its handle and the oracle's shadow (an independent statement of the
+/// property, not the model): what the commands issued so far must have done to it
+struct Snd {
+	h: StaticSoundHandle,
+	/// 0 Playing, 2 Paused, 6 Stopped (all tweens are instant: nothing else is seen after a callback)
+	state: u8,
+	pause: bool,
+	resume: bool,
+	stop: bool,
+	seekby: Option<i64>,
+	seekto: Option<u64>,
+	vol_pending: Option<u64>,
+	rate_pending: Option<u64>,
+	vol: u64,
+	rate: u64,
+	/// the positions (in frames) the handle may report once the next callback has begun
+	pos: Vec<f64>,
+	/// a seek was applied while the sound did not advance: the published position (the resampler's
+	/// frame index) does not show it until the sound advances again
+	stale: bool,
+}
+
+fn right_frames() -> Arc<[Frame]> {
+	static F: OnceLock<Arc<[Frame]>> = OnceLock::new();
+	F.get_or_init(|| vec![Frame { left: 0.0, right: 0.125 }; 60_000].into()).clone()
+}
+
+fn state_num(s: PlaybackState) -> u8 {
+	match s {
+		PlaybackState::Playing => 0,
+		PlaybackState::Pausing => 1,
+		PlaybackState::Paused => 2,
+		PlaybackState::WaitingToResume => 3,
+		PlaybackState::Resuming => 4,
+		PlaybackState::Stopping => 5,
+		PlaybackState::Stopped => 6,
+	}
 }
 
 pub fn run(ops: &[String]) -> Vec<String> {
@@ -163,6 +353,9 @@ pub fn run(ops: &[String]) -> Vec<String> {
 			seeks_applied_prev: 0,
 			tick_pending: None,
 			tick_applied: 0,
+			sub: None,
+			nest: None,
+			snds: (0..4).map(|_| None).collect(),
 		};
 		crate::seqop::drive(case, out, &mut st, |st, line, detail, out| op(st, line, detail, out));
 	})
@@ -183,6 +376,9 @@ fn op(st: &mut St, line: &str, detail: &str, out: &mut Out) -> String {
 			st.s = None;
 			st.c = None;
 			st.stream = None;
+			st.snds = (0..4).map(|_| None).collect();
+			st.nest = None;
+			st.sub = None;
 			st.mgr = Some(probe::manager(Capacities::default(), 8, 1000, MainTrackBuilder::new()));
 			"ok".into()
 		}
@@ -190,7 +386,8 @@ fn op(st: &mut St, line: &str, detail: &str, out: &mut Out) -> String {
 			let Some(mgr) = st.mgr.as_mut() else { return "bad-op".into() };
 			let mut h = mgr.add_sub_track(TrackBuilder::new()).unwrap();
 			h.play(ProbeSoundData {
-				signal: Signal::Constant { left: 1.0, right: 1.0 },
+				// audible on the left channel only (the real static sounds use the right one)
+				signal: Signal::Constant { left: 1.0, right: 0.0 },
 				length: None,
 				log: probe::new_log(),
 			})
@@ -297,8 +494,207 @@ fn op(st: &mut St, line: &str, detail: &str, out: &mut Out) -> String {
 					out.oracle_fail("ticking_last_write_wins", detail);
 				}
 			}
+			// ---- real static sounds ----
+			let amp = o[(frames - 1) * 2 + 1];
+			let mut expected_amp = 0.0f64;
+			let mut shown = vec![];
+			for slot in st.snds.iter_mut() {
+				let Some(sn) = slot else {
+					shown.push("-".to_string());
+					continue;
+				};
+				let obs_state = state_num(sn.h.state());
+				let obs_posf = sn.h.position();
+				shown.push(format!("{}:{}", obs_state, h64(obs_posf)));
+				let obs_pos = obs_posf * 1000.0;
+				if sn.state == 6 {
+					// stopped before this callback: removed from its track, commands go nowhere
+					sn.pause = false;
+					sn.resume = false;
+					sn.stop = false;
+					sn.seekby = None;
+					sn.seekto = None;
+					sn.vol_pending = None;
+					sn.rate_pending = None;
+					if obs_state != 6 {
+						out.oracle_fail("sound_state_next_callback", detail);
+					}
+					continue;
+				}
+				// the position published when this callback began: where the previous callback left the sound,
+				// i.e. with every seek / rate command of the interval before it applied exactly once
+				if !sn.stale && !sn.pos.iter().any(|p| (obs_pos - p).abs() <= 12.0) {
+					out.oracle_fail("sound_position_next_callback", detail);
+				}
+				// the state after this callback: every pause / resume / stop issued in the interval applied
+				let expected: Vec<u8> = if sn.stop {
+					vec![6]
+				} else {
+					match (sn.pause, sn.resume) {
+						(true, true) => vec![0, 2],
+						(true, false) => vec![2],
+						(false, true) => vec![0],
+						(false, false) => vec![sn.state],
+					}
+				};
+				if !expected.contains(&obs_state) {
+					out.oracle_fail("sound_state_next_callback", detail);
+				}
+				// where the seeks / the rate of this interval must take the position
+				let seeked = sn.seekby.is_some() || sn.seekto.is_some();
+				let base: Vec<f64> = if sn.stale { sn.pos.clone() } else { vec![obs_pos] };
+				let mut cand: Vec<f64> = match (sn.seekby, sn.seekto) {
+					(None, None) => base,
+					(Some(b), None) => base.iter().map(|p| (p + 1000.0 * b as f64).max(0.0)).collect(),
+					(None, Some(t)) => vec![1000.0 * t as f64],
+					(Some(b), Some(t)) => vec![1000.0 * t as f64, (1000.0 * (t as i64 + b) as f64).max(0.0)],
+				};
+				let rate = sn.rate_pending.unwrap_or(sn.rate);
+				let vol = sn.vol_pending.unwrap_or(sn.vol);
+				let advancing = obs_state == 0;
+				if advancing {
+					for p in cand.iter_mut() {
+						*p += (frames as u64 * rate) as f64;
+					}
+					expected_amp += 0.125 * if vol == 0 { 1.0 } else { 10f64.powf(-6.0 * vol as f64 / 20.0) };
+				}
+				if obs_state == 6 {
+					// a stopped sound publishes nothing any more
+					cand = vec![obs_pos];
+					sn.stale = false;
+				} else if advancing {
+					sn.stale = false;
+				} else if seeked {
+					sn.stale = true;
+				}
+				sn.pos = cand;
+				sn.state = obs_state;
+				sn.vol = vol;
+				sn.rate = rate;
+				sn.pause = false;
+				sn.resume = false;
+				sn.stop = false;
+				sn.seekby = None;
+				sn.seekto = None;
+				sn.vol_pending = None;
+				sn.rate_pending = None;
+			}
+			// the output level: every set_volume of the interval applied, paused / stopped sounds silent
+			if (amp as f64 - expected_amp).abs() > 1e-4 {
+				out.oracle_fail("sound_volume_next_callback", detail);
+			}
 			let sh = |v: Option<u64>| v.map(|x| x.to_string()).unwrap_or("-".into());
-			format!("vol={} seeks={} tick={}", sh(vol), sh(seeks), sh(tick))
+			format!("vol={} seeks={} tick={} snd={} amp={}", sh(vol), sh(seeks), sh(tick), shown.join(","), h32(amp))
+		}
+		"addt" => {
+			let Some(mgr) = st.mgr.as_mut() else { return "bad-op".into() };
+			match tok[1] {
+				"sub" => {
+					if st.sub.is_some() {
+						return "skip".into();
+					}
+					st.sub = Some(mgr.add_sub_track(TrackBuilder::new()).unwrap());
+					"ok".into()
+				}
+				"nest" => {
+					if st.nest.is_some() {
+						return "skip".into();
+					}
+					let Some(sub) = st.sub.as_mut() else { return "skip".into() };
+					st.nest = Some(sub.add_sub_track(TrackBuilder::new()).unwrap());
+					"ok".into()
+				}
+				_ => "bad-op".into(),
+			}
+		}
+		"play" => {
+			let Some(mgr) = st.mgr.as_mut() else { return "bad-op".into() };
+			let slot = pu(tok[1]) as usize;
+			if slot >= st.snds.len() {
+				return "bad-op".into();
+			}
+			if st.snds[slot].is_some() {
+				return "skip".into();
+			}
+			let data = StaticSoundData {
+				sample_rate: 1000,
+				frames: right_frames(),
+				settings: StaticSoundSettings::default(),
+				slice: None,
+			};
+			let r = match tok[2] {
+				"main" => mgr.play(data),
+				"sub" => match st.sub.as_mut() {
+					Some(t) => t.play(data),
+					None => return "skip".into(),
+				},
+				"nest" => match st.nest.as_mut() {
+					Some(t) => t.play(data),
+					None => return "skip".into(),
+				},
+				_ => return "bad-op".into(),
+			};
+			match r {
+				Ok(h) => {
+					st.snds[slot] = Some(Snd {
+						h,
+						state: 0,
+						pause: false,
+						resume: false,
+						stop: false,
+						seekby: None,
+						seekto: None,
+						vol_pending: None,
+						rate_pending: None,
+						vol: 0,
+						rate: 1,
+						pos: vec![0.0],
+						stale: false,
+					});
+					"ok".into()
+				}
+				Err(_) => "limit".into(),
+			}
+		}
+		"sc" => {
+			let slot = pu(tok[1]) as usize;
+			let Some(Some(sn)) = st.snds.get_mut(slot) else { return "skip".into() };
+			match tok[2] {
+				"pause" => {
+					sn.h.pause(instant());
+					sn.pause = true;
+				}
+				"resume" => {
+					sn.h.resume(instant());
+					sn.resume = true;
+				}
+				"stop" => {
+					sn.h.stop(instant());
+					sn.stop = true;
+				}
+				"seekby" => {
+					let k: i64 = tok[3].parse().unwrap();
+					sn.h.seek_by(k as f64);
+					sn.seekby = Some(k);
+				}
+				"seekto" => {
+					let k = pu(tok[3]);
+					sn.h.seek_to(k as f64);
+					sn.seekto = Some(k);
+				}
+				"vol" => {
+					let k = pu(tok[3]);
+					sn.h.set_volume(Decibels(-(6 * k as i64) as f32), instant());
+					sn.vol_pending = Some(k);
+				}
+				"rate" => {
+					let k = pu(tok[3]);
+					sn.h.set_playback_rate(k as f64, instant());
+					sn.rate_pending = Some(k);
+				}
+				_ => return "bad-op".into(),
+			}
+			"ok".into()
 		}
 		"stplay" => {
 			let Some(mgr) = st.mgr.as_mut() else { return "bad-op".into() };
